@@ -28,9 +28,18 @@ chk("C03", E1, "exploration",
 chk("C04", E1, "exploration",
     "Seeded search over delivery schedules of fault-free KeyGen/Sign sessions (n=2..5, loud and silent mode, serial and concurrent dispatch, free-running multi-round scripted backend so that several senders and rounds are in flight) through the real orchestrator, synchroniser, reliable broadcast and silent-mode buffer; after all queues drained the hand-off log of every backend is compared with what was emitted (exactly once, right attribution, nothing else, no equivocation conclusion).",
     "deterministic simulation (synctest bubble, seeded scheduler over per-link FIFO queues), post-run hand-off oracle", "DESIGN.md §4 C04")
+chk("C05", E1, "exploration",
+    "One participant runs the real backend but its DKG messages are rewritten on its NIC according to a catalogue walked systematically by the run index (off-polynomial shares, reveal != commitment, consistently committed off-polynomial key, equivocated commitment / reveal, 8 malformations incl. wrong arity, duplicates, early reveal, second commitment, late share, withholding) x every non-empty victim subset; n=3..4 (thorough 5), 2<=t<=n incl. t=n, BLS and PS, loud and silent, seeded schedules, deadlines on the simulated clock. Oracle: no panic anywhere (worker death captured), every honest call returns by its deadline, honest completers hold byte-identical public material and every >=t subset of them signs verifiably (real BLS / PS flows), and a recording proxy checks that no honest party emits its reveal before it was handed the commitments of all others.",
+    "deterministic simulation with a protocol-level Byzantine participant (catalogue enumeration x seeded schedules), result + disclosure-order oracle", "DESIGN.md §4 C05")
 chk("C06", E1, "exploration",
     "Seeded membership maps over 16-bit ids (identity, injective non-identity, several nodes per party with any replica participating, two replicas of one party selected) x KeyGen/Sign x schedules; the scripted backend records Init/OnMsg arguments, the simulator records every wire message: Init = sorted party ids of the participants, OnMsg.from = party of the authenticated sender, each p2p message goes to exactly the participating node of the addressee, duplicate party => every call returns an error by its deadline.",
     "deterministic simulation + argument/destination monitor on recorded history", "DESIGN.md §4 C06")
+chk("C07", E1, "exploration",
+    "disc.Member instances (one per honest member, several topics concurrently) over the simulated transport; universes of 3..6 (thorough 8) members with ids over the 16-bit range, drawn invoker subsets and expected counts; 0..n-2 Byzantine configured members fabricate membership/query/response messages (valid and foreign tags; superset, subset, duplicate, unsorted, unknown-id, all-configured and empty views; unsolicited responses), up to 25 per run. Oracle per honest completion: list sorted, duplicate-free, contains self, expected size, only announced configured members; identical lists among honest members of a list; continuation exactly once iff nil; in fault-free exact-count configurations everybody completes before the simulated deadline; with too few members nobody completes.",
+    "deterministic simulation with Byzantine message fabrication, validity/agreement/bounded-liveness oracle", "DESIGN.md §4 C07")
+chk("C08", E1, "exploration",
+    "PS DKG through the real stack under seeded schedules (2<=t<=n<=4, thorough 5; message length 1..4, thorough 6; loud/silent), then the documented flow with real crypto: Prover.Blind, TPS.Sign on every signer, UnBlind per signer, proof of knowledge for every subset of size >= t, Verifier.Verify, for 4 message vectors (empty / equal / 1-byte / long / random entries); public material compared byte for byte. The schedule dimension concerns the DKG; the rest is a seeded input sweep and is reported as such.",
+    "deterministic simulation of the DKG + seeded input sweep of the documented PS flow (exhaustive over signer subsets)", "DESIGN.md §4 C08")
 chk("C11", E1, "fault_enumeration",
     "Crash points and single lost messages are enumerated on the canonical schedule for 8 base sessions (scripted, BLS and PS key generation, scripted signing; loud and silent): for every peer P and every k, P goes silent after its k-th outgoing message (k=0: never shows up), and every single message is withheld in turn; further runs draw crash point / withheld message / cancellation step / unusable stored data with a never-expiring context under seeded schedules (n=2..4, thorough ..5). Oracle: every live call returns (error or success) no later than its deadline / cancellation + 1 s of simulated time, no panic anywhere in the process for a further 5 simulated minutes (background goroutines included; a dying worker process is captured and replayed).",
     "deterministic simulation with enumerated crash points / withheld messages + seeded fault injection; return-by-deadline oracle on the simulated clock", "DESIGN.md §4 C11")
